@@ -7,7 +7,7 @@ mode); recogniser verdicts on damaged bracket files (damage mode, K8).
 """
 import random
 
-from .. import model, treeview
+from .. import model, treeview, views
 from .. import refcodec as rc
 from . import common as cm
 
@@ -34,31 +34,6 @@ def budget(tier):
 
 
 GFS = ["SB", "OA", "HD", "MO"]
-
-
-def ref_split(label, sep="-"):
-    """Reference of the documented label grammar:
-    LABEL (GF_SEP GF)? (= GAPINDEX)? (- COINDEX)? '?   ->  (LABEL[=gap][-co]['], GF or '--')"""
-    head = ""
-    if label.endswith("'") and len(label) > 1:
-        head = "'"
-        label = label[:-1]
-    co = ""
-    i = label.rfind("-")
-    if i > -1 and label[i + 1:].isdigit():
-        co = label[i + 1:]
-        label = label[:i]
-    gap = ""
-    i = label.rfind("=")
-    if i > -1 and label[i + 1:].isdigit():
-        gap = label[i + 1:]
-        label = label[:i]
-    gf = "--"
-    i = label.find(sep)
-    if 0 < i < len(label) - 1:
-        gf = label[i + 1:]
-        label = label[:i]
-    return label + ("=" + gap if gap else "") + ("-" + co if co else "") + head, gf
 
 
 def decorate(tb, rng, sep):
@@ -174,86 +149,11 @@ def generate(seed, tier):
 
 # ---------------------------------------------------------------------------------- expect
 def expected_trees(f):
-    """What the reader must yield for a (clean) file spec."""
-    fmt, opts, kw = f["fmt"], f["opts"], f.get("kw", {})
-    sep = opts.get("gf_separator", "-")
-    out = []
-    for idx, s in enumerate(f["tb"]):
-        s = model.clone(s)
-        if fmt in ("export", "tigerxml"):
-            sid = idx + 1 if "continuous" in opts else s["sid"]
-        else:
-            sid = opts.get("brackets_firstid", 1) + idx
-        s["sid"] = sid
-        carries_edge = fmt in ("export", "tigerxml")
-        # file label strings
-        for c in model.constituents(s["root"]):
-            flabel = c[0]
-            if kw.get("gf") and c[1] not in (None, "--") and c is not s["root"]:
-                flabel = c[0] + "-" + c[1]
-            if kw.get("gf") and c is s["root"] and c[1] not in (None, "--"):
-                flabel = c[0] + "-" + c[1]
-            if "gf_split" in opts:
-                c[0], c[1] = ref_split(flabel, sep)
-            else:
-                c[0] = flabel
-                if not carries_edge:
-                    c[1] = None
-        for t in s["tokens"]:
-            flabel = t[1]
-            if kw.get("gf") and t[4] not in (None, "--") and not (kw.get("emptypos")
-                                                                   and t[1] == "EMPTY"):
-                flabel = t[1] + "-" + t[4]
-            if "gf_split" in opts:
-                t[1], t[4] = ref_split(flabel, sep)
-            else:
-                t[1] = flabel
-                if not carries_edge:
-                    t[4] = None
-        if "replace_parens" in opts:
-            for t in s["tokens"]:
-                for i in range(5):
-                    t[i] = rc.map_parens(t[i])
-            for c in model.constituents(s["root"]):
-                c[0] = rc.map_parens(c[0])
-                c[1] = rc.map_parens(c[1])
-        out.append(s)
-    return out
+    return views.read_view(f["tb"], f["fmt"], f["codec"], f["opts"], f.get("kw", {}))
 
 
 def compare(exp, got, fmt, codec, opts):
-    """Return None or (category, description)."""
-    if len(exp["tokens"]) != len(got["tokens"]):
-        return "token-count", "%d != %d" % (len(exp["tokens"]), len(got["tokens"]))
-    for i, (a, b) in enumerate(zip(exp["tokens"], got["tokens"])):
-        if a[0] != b[0] or a[1] != b[1]:
-            return "word-or-pos", "token %d: expected %r/%r got %r/%r" % (i + 1, a[0], a[1],
-                                                                          b[0], b[1])
-    lemma = codec in ("export4", "tigerxml")
-    morph = fmt in ("export", "tigerxml")
-    edge = fmt in ("export", "tigerxml") or "gf_split" in opts
-    for i, (a, b) in enumerate(zip(exp["tokens"], got["tokens"])):
-        if lemma and a[2] != b[2]:
-            return "lemma", "token %d: expected %r got %r" % (i + 1, a[2], b[2])
-        if morph and a[3] != b[3]:
-            return "morph", "token %d: expected %r got %r" % (i + 1, a[3], b[3])
-        if edge and a[4] != b[4]:
-            return "token-edge", "token %d: expected %r got %r" % (i + 1, a[4], b[4])
-    f = dict(lemma=False, morph=False, edge=False, sid=False)
-    ca, cb = model.canon(exp, **f), model.canon(got, **f)
-    if ca != cb:
-        return "labels-or-dominance", cm.first_diff(ca, cb)
-    if edge:
-        e2, g2 = model.clone(exp), model.clone(got)
-        if fmt in ("brackets", "discobrackets"):
-            e2["root"][1] = g2["root"][1] = None      # empty root label carries no edge
-        f = dict(lemma=False, morph=False, edge=True, sid=False)
-        ca, cb = model.canon(e2, **f), model.canon(g2, **f)
-        if ca != cb:
-            return "constituent-edge", cm.first_diff(ca, cb)
-    if exp["sid"] != got["sid"]:
-        return "sentence-id", "expected %r got %r" % (exp["sid"], got["sid"])
-    return None
+    return views.compare(exp, got)
 
 
 # ---------------------------------------------------------------------------------- execute
@@ -621,6 +521,7 @@ def judge_damaged(f, recs, st):
             got = treeview.to_sentence(trees[i])
             exp = model.clone(val)
             exp["sid"] = firstid + i
+            exp["root"][1] = None
             if "replace_parens" in opts:
                 for t in exp["tokens"]:
                     t[0], t[1] = rc.map_parens(t[0]), rc.map_parens(t[1])
